@@ -5,6 +5,7 @@ import (
 	"fmt"
 	"strings"
 	"testing"
+	"time"
 
 	"github.com/jcmturner/gokrb5/v8/keytab"
 	"github.com/jcmturner/gokrb5/v8/types"
@@ -174,8 +175,41 @@ func TestC14(t *testing.T) {
 	for i := 0; i < n; i++ {
 		c14Case(m, v, rng, i)
 	}
+	c14Newest(v)
 	v.ModelAsks = m.N
 	v.Write(t)
+}
+
+// c14Newest: a keytab built in memory (AddEntry takes a time.Time): of two matching entries the one with the
+// later time is the newest, also when both fall into the same second, whichever was added first.
+func c14Newest(v *Verdict) {
+	base := time.Unix(1700000000, 0)
+	for _, d := range [][2]time.Duration{{100 * time.Millisecond, 900 * time.Millisecond}, {900 * time.Millisecond, 100 * time.Millisecond}, {0, time.Nanosecond}, {time.Second, 1500 * time.Millisecond}, {2 * time.Second, time.Second}} {
+		for _, sameKvno := range []bool{false, true} {
+			kt := keytab.New()
+			k2 := uint8(2)
+			if sameKvno {
+				k2 = 1
+			}
+			if kt.AddEntry("u", "R", "first-password", base.Add(d[0]), 1, 18) != nil || kt.AddEntry("u", "R", "second-password", base.Add(d[1]), k2, 18) != nil {
+				continue
+			}
+			want := 0
+			if d[1] > d[0] {
+				want = 1
+			}
+			for _, kvno := range []int{0, 1} {
+				if kvno == 1 && !sameKvno {
+					continue
+				}
+				key, kv, err := kt.GetEncryptionKey(types.PrincipalName{NameType: 1, NameString: []string{"u"}}, "R", kvno, 18)
+				v.Case(fmt.Sprintf("newest/%v/%v/%d", d, sameKvno, kvno), "newest of two entries added in memory")
+				if err != nil || string(key.KeyValue) != string(kt.Entries[want].Key.KeyValue) || kv != int(kt.Entries[want].KVNO) {
+					v.Violate("failing-input", "c14:newest-in-memory", "of two matching entries added with AddEntry the lookup does not return the one with the later timestamp", map[string]string{"timestamps": fmt.Sprint(d), "same-kvno": fmt.Sprint(sameKvno), "requested-kvno": fmt.Sprint(kvno), "returned-kvno": fmt.Sprint(kv), "error": fmt.Sprint(err)})
+				}
+			}
+		}
+	}
 }
 
 func c14Replay(t *testing.T, m *Model, v *Verdict, rp map[string]string) {
